@@ -9,6 +9,8 @@ dict (`heap d`); the namespace current for a class is `getNames s cls`.
 -/
 namespace Ioflo.Registry
 
+theorem idsOk_init : IdsOk init := by simp [IdsOk, init]
+
 /-! ## the automatic name -/
 
 /-- **The automatic-name loop terminates on a fresh name, for every sequence of random
@@ -117,7 +119,7 @@ theorem C47_names_injective (ops : List Op) :
     (∀ i ∈ (run init ops).insts, dget ((run init ops).heap i.dict) i.name = some i.id) ∧
     (∀ i ∈ (run init ops).insts, ∀ j ∈ (run init ops).insts,
       i.dict = j.dict → i.name = j.name → i.id = j.id) := by
-  have h := wf_run wf_init ops
+  have h := wf_run wf_init idsOk_init ops
   refine ⟨h.keysNodup, h.instsIn, ?_⟩
   intro i hi j hj hd hn
   have h1 := h.instsIn i hi
@@ -156,11 +158,14 @@ theorem dget_registrarInit_mono (s : St) (cls : Cls) (name : Str) (letters : Lis
       · next e => subst e; exact dget_append_some h _
       · exact h
 
-/-- **What is registered stays registered**: no operation removes an entry from any registry or
-makes a name point to another instance. -/
+/-- **What is registered stays registered**: no operation other than `prune` (a razed clone
+taking itself out, see `C47_prune_frees_own_name`) removes an entry from any registry or makes a
+name point to another instance. -/
 theorem C47_registered_stays (s : St) (op : Op) (d : Nat) (n : Str) (v : Nat)
+    (hp : ∀ k, op ≠ .prune k)
     (h : dget (s.heap d) n = some v) : dget ((step s op).1.heap d) n = some v := by
   cases op with
+  | prune k => exact absurd rfl (hp k)
   | new cls name letters =>
     have h1 := dget_registrarInit_mono s cls name letters d n v h
     simp only [step]
@@ -199,10 +204,13 @@ theorem C47_registered_stays (s : St) (op : Op) (d : Nat) (n : Str) (v : Nat)
 
 /-- over histories -/
 theorem C47_registered_forever (s : St) (ops : List Op) (d : Nat) (n : Str) (v : Nat)
+    (hp : ∀ op ∈ ops, ∀ k, op ≠ .prune k)
     (h : dget (s.heap d) n = some v) : dget ((run s ops).heap d) n = some v := by
   induction ops generalizing s with
   | nil => exact h
-  | cons op ops ih => exact ih _ (C47_registered_stays s op d n v h)
+  | cons op ops ih =>
+    exact ih _ (fun o ho => hp o (List.mem_cons_of_mem _ ho))
+      (C47_registered_stays s op d n v (hp op (List.mem_cons_self ..)) h)
 
 /-! ## namespaces are isolated -/
 
@@ -257,7 +265,7 @@ theorem C47_clear_fresh (ops : List Op) (cls : Cls) :
     getNames (clear s cls) cls = s.nextDict ∧ (clear s cls).heap s.nextDict = [] ∧
     (∀ c, getNames s c ≠ s.nextDict) ∧ (∀ i ∈ s.insts, i.dict ≠ s.nextDict) := by
   intro s
-  have h : WF s := wf_run wf_init ops
+  have h : WF s := wf_run wf_init idsOk_init ops
   refine ⟨?_, ?_, ?_, ?_⟩
   · simp only [clear, getNames_setCounter]
     exact getNames_setNames_self _ _ _
@@ -275,14 +283,69 @@ found in two registry entries, they are the same entry. -/
 theorem C47_one_namespace_per_instance (ops : List Op) (d d' : Nat) (n n' : Str) (v : Nat)
     (h1 : dget ((run init ops).heap d) n = some v) (h2 : dget ((run init ops).heap d') n' = some v) :
     d = d' ∧ n = n' := by
-  have hw := wf_run wf_init ops
-  have hi : IdsOk (run init ops) := idsOk_run (by simp [IdsOk, init]) ops
+  have hw := wf_run wf_init idsOk_init ops
+  have hi : IdsOk (run init ops) := idsOk_run idsOk_init ops
   obtain ⟨c, hc⟩ := hw.entryInst d n v h1
   obtain ⟨c', hc'⟩ := hw.entryInst d' n' v h2
   have : (⟨v, c, n, d⟩ : Inst) = ⟨v, c', n', d'⟩ := by
     exact eq_of_nodup_map_id hi.1 hc hc' rfl
   simp only [Inst.mk.injEq, true_and] at this
   exact ⟨this.2.2, this.2.1⟩
+
+/-! ## razing: `Framer.prune` -/
+
+/-- **A pruned framer frees its name in its own namespace and only there.**  If the framer is
+registered (record `r`) and the namespace current for Framer is the one it registered in — which
+`prune` ensures with `assignRegistries` of its own house (repair D47a) — then afterwards its
+name is free in that dict, and every other entry of every registry dict is exactly as before. -/
+theorem C47_prune_frees_own_name (ops : List Op) (k i fd : Nat) (r : Inst)
+    (hk : (run init ops).framerDicts[k]? = some (i, fd))
+    (hr : findInst (run init ops).insts i = some r)
+    (hcur : getNames (run init ops) (.sub .framer) = r.dict) :
+    dget ((step (run init ops) (.prune k)).1.heap r.dict) r.name = none ∧
+    (∀ d n, (d ≠ r.dict ∨ n ≠ r.name) →
+      dget ((step (run init ops) (.prune k)).1.heap d) n = dget ((run init ops).heap d) n) := by
+  have hw := wf_run wf_init idsOk_init ops
+  generalize run init ops = s at hk hr hcur hw
+  have hri := findInst_some hr
+  have hin := hw.instsIn r hri.1
+  rw [hri.2] at hin
+  have hstep : (step s (.prune k)).1 =
+      { setHeap s r.dict (derase (s.heap r.dict) r.name) with
+        insts := s.insts.filter (fun x => x.id != i) } := by
+    simp only [step, hk, unregister, hr, hcur, hin, if_true]
+  rw [hstep]
+  constructor
+  · simp only [setHeap, if_true]
+    exact dget_derase_self (hw.keysNodup _) _
+  · intro d n hdn
+    simp only [setHeap]
+    by_cases e : d = r.dict
+    · subst e
+      simp only [if_true]
+      rcases hdn with h1 | h1
+      · exact absurd rfl h1
+      · exact dget_derase_ne _ (Ne.symm h1)
+    · simp only [e, if_false]
+
+/-- **Pruned while another namespace is current, nothing happens** (the behaviour D47a repaired
+at its source): if the namespace current for Framer is not the one the framer registered in,
+`prune` removes nothing — in particular not a namesake in the other house. -/
+theorem C47_prune_elsewhere_noop (ops : List Op) (k i fd : Nat) (r : Inst)
+    (hk : (run init ops).framerDicts[k]? = some (i, fd))
+    (hr : findInst (run init ops).insts i = some r)
+    (hcur : getNames (run init ops) (.sub .framer) ≠ r.dict) :
+    (step (run init ops) (.prune k)).1 = run init ops := by
+  have hone := C47_one_namespace_per_instance ops
+  have hw := wf_run wf_init idsOk_init ops
+  generalize run init ops = s at hk hr hcur hw hone
+  have hri := findInst_some hr
+  have hin := hw.instsIn r hri.1
+  rw [hri.2] at hin
+  have hno : dget (s.heap (getNames s (.sub .framer))) r.name ≠ some i := by
+    intro hc
+    exact hcur (hone _ _ _ _ _ hc hin).1
+  simp only [step, hk, unregister, hr, hno, if_false]
 
 /-! ## non-vacuity -/
 
@@ -311,6 +374,19 @@ example :
     (step (run init [.new (.root .tasker) [] [], .new (.sub .framer) [] [], .clear (.root .tasker)])
       (.new (.sub .framer) [] [])).2 = .name (t "Framer3") 2 := by decide
 
+/-- razing: a framer of a house is pruned while its house is current — its name is free again and
+is given to the next framer of that name; pruned once more (or while another house is current)
+nothing happens -/
+example :
+    (run init [.newHouse (t "h") [], .assignRegistries 0, .new (.sub .framer) (t "f") [], .prune 0]).heap 6 = [] ∧
+    (step (run init [.newHouse (t "h") [], .assignRegistries 0, .new (.sub .framer) (t "f") [], .prune 0])
+      (.new (.sub .framer) (t "f") [])).2 = .name (t "f") 3 ∧
+    (run init [.newHouse (t "h") [], .assignRegistries 0, .new (.sub .framer) (t "f") [], .prune 0,
+               .new (.sub .framer) (t "f") [], .prune 0]).heap 6 = [(t "f", 3)] ∧
+    (run init [.newHouse (t "h") [], .assignRegistries 0, .new (.sub .framer) (t "f") [],
+               .newHouse (t "g") [], .assignRegistries 1, .new (.sub .framer) (t "f") [], .prune 0]).heap 6 =
+      [(t "f", 2)] := by decide
+
 end Ioflo.Registry
 
 #print axioms Ioflo.Registry.C47_autoname_terminates_fresh
@@ -323,3 +399,5 @@ end Ioflo.Registry
 #print axioms Ioflo.Registry.C47_namespace_isolation
 #print axioms Ioflo.Registry.C47_clear_fresh
 #print axioms Ioflo.Registry.C47_one_namespace_per_instance
+#print axioms Ioflo.Registry.C47_prune_frees_own_name
+#print axioms Ioflo.Registry.C47_prune_elsewhere_noop
